@@ -256,6 +256,15 @@ func psRunCase(ops []*psOp) (string, []string, error) {
 	obs := make([]string, len(ops))
 	results := make([]string, len(ops))
 	for i, o := range ops {
+		if i%3 == 1 && (o.kind == "save" || o.kind == "load") {
+			// the application uses the shared handle for data of its own between the persister's operations
+			// (no model operation: records of another type under another key)
+			store.SetPrefix(db.DATATYPE_USERDATA)
+			store.Put(ctx, []byte("note"), []byte{byte(i)})
+			if i%2 == 1 {
+				store.Connect(ctx, "") // and connects again, which must be ignored
+			}
+		}
 		// the content term is printed BEFORE the operation: the objects are shared with the persister afterwards
 		switch o.kind {
 		case "content":
